@@ -98,7 +98,7 @@ func collectAccesses(l *core.Ledger, r *rt, typ, field string) []fieldAccess {
 			if fld == nil || fld.Name() != field {
 				return
 			}
-			_, fresh := fa.X.(*ssa.Alloc)
+			fresh := freshBase(fa.X, 0)
 			for _, ref := range *fa.Referrers() {
 				switch u := ref.(type) {
 				case *ssa.Store:
@@ -938,4 +938,78 @@ func c15RootsOf(roots []goRoot, fn *ssa.Function) map[string]bool {
 		out["user goroutines"] = true
 	}
 	return out
+}
+
+// freshBase: v is an object nobody else can see yet - an allocation of this
+// function, or the result of a constructor (a function all of whose returns
+// hand out an allocation of its own that it has stored nowhere and passed to
+// nobody).
+func freshBase(v ssa.Value, depth int) bool {
+	if depth > 3 {
+		return false
+	}
+	switch x := v.(type) {
+	case *ssa.Alloc:
+		return true
+	case *ssa.Phi:
+		for _, e := range x.Edges {
+			if c, ok := e.(*ssa.Const); ok && c.IsNil() {
+				continue
+			}
+			if !freshBase(e, depth+1) {
+				return false
+			}
+		}
+		return true
+	case *ssa.Extract:
+		if c, ok := x.Tuple.(*ssa.Call); ok {
+			return constructorResult(c.Call.StaticCallee(), x.Index, depth)
+		}
+	case *ssa.Call:
+		return constructorResult(x.Call.StaticCallee(), 0, depth)
+	}
+	return false
+}
+
+func constructorResult(f *ssa.Function, idx int, depth int) bool {
+	if f == nil || len(f.Blocks) == 0 || f.Signature.Results().Len() <= idx {
+		return false
+	}
+	n, ok := 0, true
+	sx.AllInstrs(f, func(_ sx.Node, in ssa.Instruction) {
+		ret, isRet := in.(*ssa.Return)
+		if !isRet || len(ret.Results) <= idx {
+			return
+		}
+		n++
+		v := ret.Results[idx]
+		if c, isC := v.(*ssa.Const); isC && c.IsNil() {
+			return
+		}
+		al, isAl := v.(*ssa.Alloc)
+		if !isAl {
+			// a constructor built on another constructor
+			if !freshBase(v, depth+1) {
+				ok = false
+				return
+			}
+			// the object must not have been handed to anybody in between
+			for _, ref := range *v.Referrers() {
+				switch ref.(type) {
+				case *ssa.FieldAddr, *ssa.Return, *ssa.DebugRef, *ssa.If, *ssa.BinOp:
+				default:
+					ok = false
+				}
+			}
+			return
+		}
+		for _, ref := range *al.Referrers() {
+			switch ref.(type) {
+			case *ssa.FieldAddr, *ssa.Return, *ssa.DebugRef:
+			default:
+				ok = false
+			}
+		}
+	})
+	return ok && n > 0
 }
